@@ -34,6 +34,7 @@ const (
 	EvLeader     = 10 // (old term, new term as observation)
 	EvHeartbeat  = 11 // ts
 	EvProbe      = 12 // raw ChangeTract probe: blob, tract, version delta, term delta
+	EvInject     = 17 // a curator-side RPC no task owns (probe of the tractserver's version rules)
 )
 
 // OpResult is the outcome of a finished top-level activity.
@@ -93,7 +94,7 @@ type opMeta struct {
 
 // Weights of the generic actions.
 type Weights struct {
-	Deliver, ReplyExec, Write, Read, Replicate, ReplicateDuringWrite, ReplicateAfterLeader, ThirdPartyFix, Restart, Leader, LeaderDuringTask, Heartbeat, Complaint, Probe int
+	Deliver, ReplyExec, Write, Read, Replicate, ReplicateDuringWrite, ReplicateAfterLeader, ThirdPartyFix, Restart, Leader, LeaderDuringTask, Heartbeat, Complaint, Probe, CrashPull, ProbeStore int
 	// per-mille mode probabilities for a delivery
 	PLose, PFail, PTwice, PExecOnly int
 	PReplyLose                      int
@@ -101,7 +102,7 @@ type Weights struct {
 
 func DefaultWeights() Weights {
 	return Weights{Deliver: 10, ReplyExec: 10, Write: 14, Read: 7, Replicate: 3, ReplicateDuringWrite: 25, ReplicateAfterLeader: 20, ThirdPartyFix: 1,
-		Restart: 1, Leader: 1, LeaderDuringTask: 12, Heartbeat: 10, Complaint: 6, Probe: 1,
+		Restart: 1, Leader: 1, LeaderDuringTask: 12, Heartbeat: 10, Complaint: 6, Probe: 1, CrashPull: 2, ProbeStore: 1,
 		PLose: 70, PFail: 40, PTwice: 30, PExecOnly: 80, PReplyLose: 150}
 }
 
@@ -133,7 +134,7 @@ type Driver struct {
 	nFaults   int
 	prePull   *curator.VerifTractState
 	// Tainted[tract] = a PullTract re-copied a replica that already had the requested version and
-	// changed its content (finding F20); read findings on such a tract carry a signature suffix.
+	// changed its content (finding F21); read findings on such a tract carry a signature suffix.
 	Tainted map[core.TractID]bool
 }
 
@@ -390,6 +391,20 @@ func (d *Driver) Step(r *RPC, mode int) *Event {
 	return d.after(ev)
 }
 
+// StepCrashPull executes a parked PullTract at a tractserver that crashes in the middle of it: at
+// the data write of the pulled copy, i.e. after the local file was created and its version recorded
+// (Store.doCreate order).  The caller sees an RPC error; the server restarts.
+func (d *Driver) StepCrashPull(r *RPC) *Event {
+	ev := &Event{Code: EvStep, RPC: r, Mode: ModeCrash}
+	d.lastRPC = r
+	d.nFaults++
+	d.prePull = nil
+	d.Cl.TS[r.TS].ArmCrash(core.TractID{Blob: core.BlobID(r.Blob), Index: core.TractKey(r.Tract)})
+	d.Cl.S.Start(r, ModeLoseReply)
+	d.Cl.RestartTS(r.TS)
+	return d.after(ev)
+}
+
 func (d *Driver) Reply(r *RPC, lose bool) *Event {
 	for _, x := range d.Cl.S.Pending() {
 		if x.State == StExecuted && !x.AutoSend && x != r && !lessKey(x.key(), r.key()) && !lessKey(r.key(), x.key()) && x.Seq < r.Seq {
@@ -420,6 +435,45 @@ func (d *Driver) LeaderChange() *Event {
 func (d *Driver) Heartbeat(i int) *Event {
 	d.Cl.Heartbeat(i)
 	return d.after(&Event{Code: EvHeartbeat, Args: []int64{int64(i)}})
+}
+
+// ProbeStore sends, from the curator side and owned by no task, a SetVersion or PullTract that the
+// tractserver's version rules must reject on the state as it is right now (SetVersion jumping over a
+// version; PullTract of a version older than the local copy), and delivers it at once.  On the real
+// code these are no-ops; a Store that accepts them breaks the protocol the next moment.
+func (d *Driver) ProbeStore(pull bool, ts, blob, tract int) {
+	tid := d.tractID(blob, tract)
+	rep, ok := d.Snap.TS[ts][tid]
+	if !ok || !rep.HasVersion {
+		return
+	}
+	cur := d.Cl.Cur
+	var src []string
+	for i := 1; i < len(d.Cl.TS); i++ {
+		if i != ts {
+			if _, has := d.Snap.TS[i][tid]; has {
+				src = append(src, TSAddr(i))
+			}
+		}
+	}
+	if pull && (rep.Version < 2 || len(src) == 0) {
+		return
+	}
+	tt := &curTalker{cl: d.Cl, gen: cur.Gen}
+	m := &opMeta{kind: EvInject, blob: blob, tract: tract, gen: cur.Gen}
+	d.Cl.S.Go("inject", m, func() interface{} {
+		if pull {
+			return OpResult{Kind: EvInject, Err: tt.PullTract(TSAddr(ts), core.TractserverID(ts), src, tid, rep.Version-1)}
+		}
+		return OpResult{Kind: EvInject, Err: tt.SetVersion(TSAddr(ts), core.TractserverID(ts), tid, rep.Version+2+d.R.Intn(2), 0)}
+	})
+	ev := d.after(&Event{Code: EvInject})
+	for _, r := range ev.NewRPCs {
+		if r.Client < 0 && r.TS == ts && r.State == StParked && (r.Kind == KSetVersion || r.Kind == KPullTract) {
+			d.Step(r, ModeDeliver)
+			return
+		}
+	}
 }
 
 // Probe submits a raw ChangeTract(durable version + dv, same hosts, current term - dt).
@@ -494,7 +548,19 @@ func (d *Driver) after(ev *Event) *Event {
 	ev.Touched = d.Cl.Touched()
 	for _, i := range ev.Touched {
 		before, after := d.Snap.Refresh(d.Cl, i)
-		if ev.Code == EvStep && d.lastRPC != nil && d.lastRPC.TS == i {
+		if ev.Code == EvStep && ev.Mode == ModeCrash && d.lastRPC != nil && d.lastRPC.TS == i {
+			// a crash in the middle of a pull may leave an empty copy with the version already recorded
+			tid := core.TractID{Blob: core.BlobID(d.lastRPC.Blob), Index: core.TractKey(d.lastRPC.Tract)}
+			for id, a := range after {
+				if b, ok := before[id]; ok && replicaEqual(a, b) {
+					continue
+				}
+				if id != tid || !(a.Version == d.lastRPC.Version && a.Len == 0) {
+					d.report(Bad{Sig: "frame-crashed-pull-changed-other-data", What: "a tractserver crash during PullTract changed more than the pulled tract",
+						Detail: map[string]interface{}{"ts": i, "tract": id.String()}})
+				}
+			}
+		} else if ev.Code == EvStep && d.lastRPC != nil && d.lastRPC.TS == i {
 			for _, b := range CheckFrame(d.lastRPC, before, after, d.Snap) {
 				d.report(b)
 			}
@@ -549,7 +615,9 @@ func (d *Driver) after(ev *Event) *Event {
 					break
 				}
 			}
-			d.markOrphans(ev, m.gen, m.blob, m.tract)
+			if m.kind != EvInject {
+				d.markOrphans(ev, m.gen, m.blob, m.tract)
+			}
 		}
 	}
 	ev.OpLines, ev.ObsLines = d.Lines(ev)
@@ -559,7 +627,7 @@ func (d *Driver) after(ev *Event) *Event {
 
 // checkRepull: a PullTract executed at a server that already held the tract at the requested
 // version.  If that changed the replica, writes the old copy had are gone from it; if the replica is
-// at that moment a committed member of the repl group at that version, this is finding F20 (a
+// at that moment a committed member of the repl group at that version, this is finding F21 (a
 // superseded re-replication's pull clobbers a replica another leader committed).
 func (d *Driver) checkRepull(r *RPC, before, after map[core.TractID]tractserver.VerifReplica) {
 	if r.Kind != KPullTract {
@@ -902,6 +970,7 @@ func (d *Driver) Actions() []Action {
 			}
 			if r.Kind == KPullTract {
 				setvDone = true
+				acts = append(acts, Action{w.CrashPull, func() { d.StepCrashPull(r) }})
 			}
 		case StExecuted:
 			acts = append(acts, Action{w.ReplyExec, func() { d.Reply(r, d.R.Intn(1000) < w.PReplyLose) }})
@@ -958,6 +1027,10 @@ func (d *Driver) Actions() []Action {
 			if d.lockLoad(t[0], t[1]) < 2 {
 				d.StartThirdPartyFix(t[0], t[1], v, h)
 			}
+		}})
+		acts = append(acts, Action{w.ProbeStore, func() {
+			t := dts[d.R.Intn(len(dts))]
+			d.ProbeStore(d.R.Bool(), d.R.Range(1, len(d.Cl.TS)-1), t[0], t[1])
 		}})
 		acts = append(acts, Action{w.Probe, func() {
 			t := dts[d.R.Intn(len(dts))]
